@@ -402,7 +402,46 @@ Fixpoint new_deliveries (pl : policy) (n : nat) (d : list (Z * list entry)) : li
   | _, [] => []
   end.
 
-Definition seq_eval (d : Z) (q : seqst) : seqst :=
+(* ---- the collection vocabulary of the harness (header field 4 = 1): the source's output is a
+   TSD<str, TS<int>>; a sent value v is a delta: v >= 0 sets key v / 100 to v mod 100, v <= -10 removes
+   key -v - 10 (lenient: a no-op when absent), -1 is the empty delta.  The queue protocol is unchanged
+   (the LTS does not look at values); only what a delivery shows differs:
+     Queue : the delta is applied to the output; the cycle shows a delivery iff the delta has an effect;
+     Confl : the output becomes the fold of the window's deltas over an EMPTY accumulator.
+   (Harness cases of this vocabulary do not restart the graph and open every conflation window with a
+   "set", so that pending = "some send of the window had an effect" coincides with "window non-empty".) *)
+Definition dstate := list (Z * Z).
+Fixpoint dset (k x : Z) (m : dstate) : dstate :=
+  match m with
+  | [] => [(k, x)]
+  | (k', x') :: r => if k <? k' then (k, x) :: m else if k =? k' then (k, x) :: r else (k', x') :: dset k x r
+  end.
+Fixpoint ddel (k : Z) (m : dstate) : dstate :=
+  match m with
+  | [] => []
+  | (k', x') :: r => if k =? k' then r else (k', x') :: ddel k r
+  end.
+Fixpoint dmem (k : Z) (m : dstate) : bool :=
+  match m with [] => false | (k', _) :: r => (k =? k') || dmem k r end.
+Definition dapply (m : dstate) (v : Z) : dstate :=
+  if 0 <=? v then dset (v / 100) (v mod 100) m else if v <=? -10 then ddel (- v - 10) m else m.
+Definition deffect (m : dstate) (v : Z) : bool :=
+  if 0 <=? v then true else if v <=? -10 then dmem (- v - 10) m else false.
+Definition dflat (m : dstate) : list Z := flat_map (fun kx => [fst kx; snd kx]) m.
+Definition dfold (l : list entry) (m : dstate) : dstate := fold_left (fun a e => dapply a (e_val e)) l m.
+
+Definition dict_lines (pl : policy) (old new : list (Z * list entry)) : list line :=
+  match pl with
+  | Confl => map (fun tb => 5 :: fst tb :: dflat (dfold (snd tb) [])) new
+  | _ =>
+      let before := dfold (concat (map snd old)) [] in
+      match new with
+      | [(t, [e])] => if deffect before (e_val e) then [5 :: t :: dflat (dapply before (e_val e))] else []
+      | _ => []
+      end
+  end.
+
+Definition seq_eval (dm : bool) (d : Z) (q : seqst) : seqst :=
   let s := st q in
   if negb (started s) then emit [13; idx q] q
   else
@@ -412,7 +451,8 @@ Definition seq_eval (d : Z) (q : seqst) : seqst :=
     let s2 := run_cons 8 s1 in
     let q1 := settle (with_st s2 q) in
     let s3 := st q1 in
-    let dl := new_deliveries (pol s) (length (delivered s)) (delivered s3) in
+    let dl := if dm then dict_lines (pol s) (delivered s) (skipn (length (delivered s)) (delivered s3))
+              else new_deliveries (pol s) (length (delivered s)) (delivered s3) in
     mkSeq s3 (blocked q1) (idx q1) ([3; idx q; 0; evald; obs_pending s3; b2z (flag s3)] :: rev dl ++ outl q1).
 
 Definition sender_valid (s : state) : Z :=
@@ -438,12 +478,12 @@ Definition seq_reqstop (q : seqst) : seqst :=
   let s1 := do_step (do_step (st q) LReqStop) LReqNotify in
   emit [9; idx q; sender_valid s1; b2z (flag s1)] (with_st s1 q).
 
-Definition seq_op (q : seqst) (l : line) : seqst :=
+Definition seq_op (dm : bool) (q : seqst) (l : line) : seqst :=
   let q1 :=
     match l with
     | 1 :: r => seq_send 1 (nthz 0 r) (nthz 1 r) (nthz 2 r) q
     | 2 :: r => seq_send 2 (nthz 0 r) (nthz 1 r) (nthz 2 r) q
-    | 3 :: r => seq_eval (nthz 0 r) q
+    | 3 :: r => seq_eval dm (nthz 0 r) q
     | 4 :: _ => seq_stop q
     | 5 :: _ => seq_start q
     | 6 :: _ => seq_reqstop q
@@ -472,11 +512,13 @@ Fixpoint take_ops (c : wire) : wire :=
   end.
 
 Definition run_seq (hdr : line) (ops : wire) : wire :=
-  let pl := policy_of (nthz 1 hdr) in
+  let dm := nthz 4 hdr =? 1 in
+  let pl0 := policy_of (nthz 1 hdr) in
+  let pl := if dm then match pl0 with Burst => Queue | p => p end else pl0 in   (* a burst needs a tuple output *)
   let c := Z.to_nat (nthz 2 hdr) in
   let n := Z.to_nat (Z.max 1 (nthz 3 hdr)) in
   let q0 := mkSeq (init pl c (S n)) None 0 [] in
-  rev (outl (seq_finish (fold_left seq_op (take_ops ops) q0))).
+  rev (outl (seq_finish (fold_left (seq_op dm) (take_ops ops) q0))).
 
 (* ------------------------------------------------------------------------ *)
 (* Recorded histories of free-running executions (driver mode 2) and the
